@@ -982,11 +982,21 @@ def ifexp_to_statement(sources: Dict[str, str]) -> Dict[str, str]:
 
 
 def _is_submodule(module: str, name: str) -> bool:
+    """Is `module.name` a module file / package directory?  Decided on the file system (nothing is imported)."""
     import importlib.util
+    import os
+    parts = module.split(".")
     try:
-        return importlib.util.find_spec(f"{module}.{name}") is not None
+        spec = importlib.util.find_spec(parts[0])  # a top-level name: located, not imported
     except (ImportError, AttributeError, ValueError):
         return False
+    if spec is None or not spec.submodule_search_locations:
+        return False
+    for root in spec.submodule_search_locations:
+        d = os.path.join(root, *parts[1:])
+        if os.path.isdir(os.path.join(d, name)) or any(f == name + ".py" or (f.startswith(name + ".") and f.endswith((".so", ".pyd"))) for f in (os.listdir(d) if os.path.isdir(d) else [])):
+            return True
+    return False
 
 
 def qualified_external_imports(sources: Dict[str, str]) -> Dict[str, str]:
